@@ -170,7 +170,7 @@ def gen_model(rng, features=None):
             if rng.random() < 0.25:
                 # a string-like class that rewrites its own scalar (a new node object) or refuses it
                 c['savorize'] = [rng.choice([('replace', 'x'), ('replace', 'canon'), ('replace', 1),
-                                             ('fail',), ('other',)])]
+                                             ('fail',), ('other',), ('fail', 'bare'), ('other', 'bare')])]
             if features and 'sweeten' in features and rng.random() < 0.3:
                 c['sweeten'] = [('set_value_upper',)] if False else []
         elif r < 0.5 and plain:
@@ -260,9 +260,9 @@ def gen_savorize(rng, c):
     elif r < 0.7 and names:
         ops.append(('scalar2map', names[0]))
     elif r < 0.78:
-        ops.append(('fail',))
+        ops.append(('fail', 'bare') if rng.random() < 0.5 else ('fail',))
     elif r < 0.84:
-        ops.append(('other',))
+        ops.append(('other', 'bare') if rng.random() < 0.5 else ('other',))
     elif r < 0.9:
         ops.append(('replace', rng.choice([1, 'x', None])))
     elif names:
@@ -496,6 +496,10 @@ def mutate(rng, doc, spec=None):
     if r < 0.5:
         # wrong scalar
         new = scalar_for(rng, rng.choice([('str',), ('int',), ('float',), ('bool',), ('null',)]))
+        if rng.random() < 0.15:
+            # names that mean something to Python's attribute lookup (an enum member is looked up by name)
+            new = S(rng.choice(['__doc__', '__module__', '__members__', 'mro', '__class__', 'name', 'value', '_value_',
+                                '__init__', '__dict__']))
         return replace_at(doc, p, lambda d: new), ('scalar', p)
     if r < 0.6:
         new = rng.choice([('q', [], None), ('m', [], None), ('q', [S('z')], None)])
